@@ -30,6 +30,7 @@ STRATA = [
     ("knap-fill", 300, 6000),
     ("knap-large", 60, 1200),
     ("knap-approx", 400, 8000),
+    ("knap-tiny-values", 300, 5000),
     ("bin-int", 500, 10000),
     ("bin-dec", 400, 8000),
     ("bin-straddle", 400, 8000),
@@ -182,6 +183,14 @@ def gen(stratum, rng, tier):
         v = list(w) if style == "w" else [1] * len(w) if style == "one" else [rng.randint(0, 12) for _ in w]
         vp = p if style == "w" else 0
         return _knap_case(v, vp, w, p, cap)
+    if stratum == "knap-tiny-values":
+        # values of magnitude 1e-10 .. 1e-8 (integer weights): which subset is best does not depend on the scale of
+        # the values, so an absolute "improvement > 1e-9" style guard in the DP must not change the answer
+        n = rng.randint(2, 9)
+        w = [rng.randint(1, 12) for _ in range(n)]
+        v = [rng.randint(1, 40) for _ in range(n)]
+        cap = rng.randint(max(1, min(w)), max(2, sum(w) - 1))
+        return _knap_case(v, rng.choice([9, 10, 10, 11]), w, 0, cap)
     if stratum == "knap-approx":
         # coarse DP grid (4 decimal places, or decimals with capacity > 100) where the best subset fills the
         # capacity exactly or nearly: rounding a scaled weight the wrong way loses it
